@@ -754,11 +754,10 @@ def run_check(ctx, prop, items_fn, rule, extra_eval=None):
     report = Report(level)
     global _PROP
     _PROP = prop
-    tot = engine_i.run_items(ctx, (i for i in items_fn(ctx.tier) if i[0] != "tparallel"), _evaluate, chunk=16)
-    # an engine-T item is a whole exploration (up to ~2000 executions): one item per work unit
+    # an engine-T item is a whole exploration (up to ~5000 executions): one item per work unit, the largest first
     heavy = [i for i in items_fn(ctx.tier) if i[0] == "tparallel"]
-    if heavy:
-        tot = engine_i.run_items(ctx, iter(heavy), _evaluate, chunk=1, totals=tot)
+    heavy.sort(key=lambda i: -(3 * i[2] + {False: 0, "listing": 1, True: 2}[i[3]] * i[2]))
+    tot = engine_i.run_items(ctx, (i for i in items_fn(ctx.tier) if i[0] != "tparallel"), _evaluate, chunk=16, singles=heavy)
     engine_i.fill_report(report, tot, rule=rule, floor_distinct=20)
     return report
 
@@ -815,19 +814,20 @@ def _evaluate(item):
         return {"cls": f"parallel:{o2}", "viol": viol, "n": 2, "nt": f"parallel|{'+'.join(shapes)}|{opts['parallel']}|{o2}",
                 "sample": {"shapes": list(shapes), "opts": opts, "outcome": o2}}
     if kind == "tparallel":
-        return _evaluate_threads(item[1], item[2])
+        return _evaluate_threads(item[1], item[2], item[3] if len(item) > 3 else False)
     raise ValueError(kind)
 
 
-def _evaluate_threads(case, bound):
+def _evaluate_threads(case, bound, reads=False):
     """In a forked child that owns the locks of signac / synced_collections and is bounded in time (engine_t.isolated)."""
     from .. import engine_t
-    return engine_t.isolated(_evaluate_threads_here, case, bound)
+    return engine_t.isolated(_evaluate_threads_here, case, bound, reads)
 
 
-def _evaluate_threads_here(case, bound):
-    """Every interleaving (<= bound preemptions, scheduling points before every mutating system call) of the pool's
-    threads must leave the destination tree, and end with the outcome, of the sequential run."""
+def _evaluate_threads_here(case, bound, reads=False):
+    """Every interleaving (<= bound preemptions; scheduling points before every mutating system call, with ``reads`` also
+    before every stat / listing call) of the pool's threads must leave the destination tree, and end with the outcome, of
+    the sequential run."""
     import json
 
     from signac import sync as ssync
@@ -849,7 +849,7 @@ def _evaluate_threads_here(case, bound):
             if orig is not None:
                 ssync.ThreadPool = orig
         return json.dumps([o, t], sort_keys=True, default=str)
-    res = engine_t.explore(run_once, bound)  # engine_t.HarnessError propagates: reported as HARNESS-ERROR, never as a violation
+    res = engine_t.explore(run_once, bound, mutating_only={False: True, True: False}.get(reads, reads))  # engine_t.HarnessError propagates: reported as HARNESS-ERROR, never as a violation
     t1 = json.loads(want)[1]
     viol = []
     for obs, sched in res["observations"].items():
@@ -857,13 +857,13 @@ def _evaluate_threads_here(case, bound):
             o2, t2 = json.loads(obs)
             viol.append({"prop": "C15", "sig": {"kind": "parallel-schedule-differs-from-sequential"}, "scenario": entry,
                          "input": {"kind": "tparallel", "shapes": list(shapes), "pdoc": pdoc, "opts": opts, "entry": entry,
-                                   "schedule": sched, "bound": bound},
+                                   "schedule": sched, "bound": bound, "reads": reads},
                          "expected": o1, "observed": o2,
                          "msg": f"parallel={opts['parallel']} under thread schedule {sched}: outcome {o2} vs sequential {o1}; "
                                 f"tree diff {canon.snap_diff(t1, t2)[:5]}"})
     viol = [v for v in viol if v["prop"] == _PROP]
     return {"cls": f"tparallel:{o1}", "viol": viol[:3], "n": res["schedules"],
-            "nt": f"tparallel|{'+'.join(shapes)}|{opts['parallel']}|{o1}|{res['points_max']}",
+            "nt": f"tparallel|{'+'.join(shapes)}|{opts['parallel']}|{opts['exclude']}|{o1}|{res['points_max']}",
             "sample": {"shapes": list(shapes), "opts": opts, "schedules": res["schedules"], "points_max": res["points_max"],
                        "pools_seen": res["pools_seen"], "distinct_outcomes": len(res["observations"])},
             "counters": {"schedules": res["schedules"], "thread_harnesses": 1,
@@ -872,27 +872,43 @@ def _evaluate_threads_here(case, bound):
 
 
 def thread_cases(tier):
-    """(case, preemption bound)"""
+    """(case, preemption bound, reads).  Scheduling points are the mutating system calls and ``open``; with reads ==
+    "listing" directory listings as well; with reads == True every stat call too."""
     pool = MULTI[:5] if tier == "quick" else MULTI
     two_tasks = [n for n in pool if "src" in SHAPES[n]]
     k = 0
     for pair in itertools.permutations(pool, 2):
         for par in (2, True):
             case = (pair, "none", base_opts(strategy="always", doc_sync="update", recursive=True, parallel=par), "sync_projects")
-            yield case, 1
+            yield case, 1, True
             if pair[0] in two_tasks and pair[1] in two_tasks and par == 2:
                 k += 1
                 if tier != "quick" or k % 3 == 1:
-                    yield case, 2
+                    yield case, 2, "listing"
+    # option objects shared by the tasks (exclude given as a list), jobs present on both sides whose documents differ in
+    # size and hold destination-only keys: two preemptions, every system call a scheduling point
+    shared = [(("dst-extra", "dst-extra"), "sorted"), (("dst-extra", "doc-nested-conflict"), "sorted"),
+              (("dst-extra", "doc-nested-conflict"), "reversed"), (("doc-nested-dst-only", "doc-nested-dst-only"), "sorted"),
+              (("doc-flat-conflict", "dst-extra"), "sorted"), (("doc-flat-conflict", "dst-extra"), "reversed")]
+    for n, (pair, order) in enumerate(shared):
+        case = (pair, "none", base_opts(strategy="always", doc_sync="update", recursive=True, exclude="list", parallel=2,
+                                        order=order), "sync_projects")
+        yield case, 2, "listing"
+        if tier != "quick" and n < 2:
+            yield case, 2, True
     n3 = 0
     for tri in itertools.permutations(pool[:4], 3):
         if tier == "quick" and tri[0] != pool[0]:
             continue
         for par in (2, True):
             n3 += 1
-            # three tasks: every schedule with one preemption (quick) / two preemptions (thorough)
-            yield (tri, "none", base_opts(strategy="update", doc_sync="bykey-fn", recursive=True, exclude="list", parallel=par),
-                   "sync_projects"), (2 if tier != "quick" else 1)
+            # three tasks: every schedule with one preemption over all system calls; thorough also two preemptions over the
+            # mutating calls
+            case = (tri, "none", base_opts(strategy="update", doc_sync="bykey-fn", recursive=True, exclude="list", parallel=par),
+                    "sync_projects")
+            yield case, 1, True
+            if tier != "quick":
+                yield case, 2, False
 
 
 def replay_case(payload, prop):
@@ -902,5 +918,5 @@ def replay_case(payload, prop):
     kind = i.get("kind", "case")
     case = (tuple(i["shapes"]), i["pdoc"], i["opts"], i["entry"])
     if kind == "tparallel":
-        return _evaluate((kind, case, i["bound"]))["viol"]
+        return _evaluate((kind, case, i["bound"], i.get("reads", False)))["viol"]
     return _evaluate((kind, case))["viol"]
